@@ -82,3 +82,13 @@ package interpreter
 //@   assumed
 //@   requires input.Item != nil
 //@   modifies input.Item[*]
+// C07 / C08 (checked against the body): a failing update leaves the item as it was, and an attribute the expression
+// removed from the environment is gone from the item
+//@   bodyensures[C07,C08] result0 != nil ==> content(input.Item) == old(content(input.Item))
+//@   bodyensures[C07] result0 == nil ==> forall f string :: {f in input.Item} old(f in input.Item) && !(f in env.store) ==> !(f in input.Item)
+//@   loop 1:
+//@     invariant fresh(item) && item != nil && dom(item) == visited && content(input.Item) == old(content(input.Item))
+//@   loop 2:
+//@     invariant fresh(attributes) && attributes != nil && content(input.Item) == old(content(input.Item)) && dom(item) == old(dom(input.Item))
+//@   loop 3:
+//@     invariant dom(item) == old(dom(input.Item)) && forall f string :: {f in input.Item} f in visited && !(f in env.store) ==> !(f in input.Item)
